@@ -32,7 +32,7 @@ FLOORS = {'if_cases': 500, 'poisoned_unselected': 200, 'andor_cases': 500,
           'not_cases': 50, 'spy_calls': 1000, 'omitted_else': 20,
           'reassigned_cases': 100, 'foreign_namespace_evaluations': 10,
           'long_range_cases': 32, 'blank_only_cases': 12,
-          'extracted_models': 20, 'empty_text_prelude_evaluations': 6}
+          'extracted_models': 20, 'same_rectangle_two_sheets_cases': 100, 'empty_text_prelude_evaluations': 6}
 ANCHOR_FUNCS = {
     'xlcalculator/xlfunctions/logical.py': ['IF', 'AND', 'OR', 'NOT'],
     'xlcalculator/ast_nodes.py': ['FunctionNode.eval'],
@@ -569,6 +569,51 @@ def run(ctx):
                          f'{list(zip(forms, outs))}',
                          {'formulas': forms, 'observed': outs},
                          monitor='lazy-selection', group=f'blank-only:{fn}')
+
+    # ---- the same rectangle on two sheets in ONE call: the deciding element
+    # sits in only one of them ---------------------------------------------
+    if ctx.shard in (6, 7) or thorough:
+        for fn, neutral, decider in (('OR', False, True), ('AND', True, False),
+                                     ('OR', 0, 1), ('AND', 1, 0)):
+            for where in ('second', 'first', 'third'):
+                cells = {}
+                for sh_ in ('Sheet1', 'Other', 'Third'):
+                    for r in (1, 2):
+                        for c in ('A', 'B'):
+                            cells[f'{sh_}!{c}{r}'] = neutral
+                tgt = {'first': 'Sheet1', 'second': 'Other',
+                       'third': 'Third'}[where]
+                cells[f'{tgt}!B2'] = decider
+                hit = (fn == 'OR')
+                probes = {
+                    f'={fn}(A1:B2,Other!A1:B2)': hit if where != 'third'
+                    else (not hit),
+                    f'={fn}(Other!A1:B2,A1:B2)': hit if where != 'third'
+                    else (not hit),
+                    f'={fn}(A1:B2,Other!A1:B2,Third!A1:B2)': hit,
+                    f'={fn}(Third!A1:B2,Other!A1:B2,Sheet1!A1:B2)': hit,
+                    f'=IF({fn}(A1:B2,Other!A1:B2,Third!A1:B2),"y","n")':
+                        'y' if hit else 'n',
+                    f'=NOT({fn}(A1:B2,Other!A1:B2,Third!A1:B2))': not hit,
+                    f'={fn}(A1:A2,Other!A1:A2,B1:B2,Other!B1:B2,Third!B1:B2)':
+                        hit,
+                }
+                outs = subject.eval_batch(list(probes), cells)
+                for (text, want), got in zip(probes.items(), outs):
+                    ctx.event('andor_cases')
+                    ctx.event('same_rectangle_two_sheets_cases')
+                    ctx.case(('two-sheets', fn, where, text[:24],
+                              repr(neutral)))
+                    wn = ('bool', want) if isinstance(want, bool) else \
+                        ('text', want)
+                    if got != ('value', wn):
+                        ctx.fail(f'{text} (on Sheet1) with every cell '
+                                 f'{neutral!r} except {tgt}!B2 = {decider!r}: '
+                                 f'observed {got}, expected {want}',
+                                 {'formula': text, 'cells': cells,
+                                  'observed': got},
+                                 monitor='lazy-selection',
+                                 group=f'two-sheets:{fn}:{where}')
 
     # ---- long ranges: the deciding element comes after more than 100 elements
     # that are FALSE / 0 (values, not blanks) --------------------------------
